@@ -30,13 +30,17 @@ class FaultSync(Suite):
                                      file_sizes=(0, 5, 100, 32768, 40000, 70000), xattrs=False)
             if not tree:
                 continue
-            dst = [] if rng.random() < 0.6 else gen.mutate_disk_tree(rng, tree)
+            dst = [] if rng.random() < (0.4 if wide else 0.6) else gen.mutate_disk_tree(rng, tree)
             nent = len(tree)
             files = [e for e in tree if e["t"] == "file"]
             kinds = STREAM_FAULTS + ["cancel", "cancelS", "walk", "hasher", "notify", "kill"] + (["read"] if files else [])
             reps = 1 if tier == "quick" else 2
             for _ in range(reps):
                 kind = rng.choice(kinds)
+                if wide and dst and rng.random() < 0.4:
+                    # a destination wider than the walker's channel, and a fault that stops the comparison while the walk of the
+                    # destination is still running
+                    kind = rng.choice(["cancel", "recvR", "sendR", "kill", "hasher", "notify"])
                 f = {"kind": kind}
                 if wide and kind in ("cancel", "hasher", "notify", "recvR", "sendR") and rng.random() < 0.6:
                     f["at"] = rng.randint(1, 8)      # early fault: the whole backlog is still queued
